@@ -8,7 +8,7 @@ BIN = 'c06'
 DRV = 'drv_c06'
 UN = ['not', 'notop', 'notref', 'rev', 'lz', 'lo', 'tz', 'to', 'cnt1', 'cnt0', 'bitlen', 'bytelen', 'msb', 'ispow2',
       'npow2', 'cnpow2']
-BIN2 = ['%s%d' % (o, k) for o in ('and', 'or', 'xor') for k in range(6)]
+BIN2 = ['%s%d' % (o, k) for o in ('and', 'or', 'xor') for k in range(8)]
 IDX = ['bit', 'byte', 'cbyte']
 RULE = ('corpus, then exhaustive at widths 0..8 (0..10 thorough): every value x every unary op, every value x every index '
         '0..bits+64 for bit/set_bit/byte/checked_byte, all operand pairs at widths 0..4 for and/or/xor; then structured cases over 37 '
@@ -117,6 +117,10 @@ def gen(rng, tier):
                 for o in ('and', 'or', 'xor'):
                     yield '%s%d %d %s %s' % (o, k % 6, bits, hx(a), hx(b))
                     k += 1
+                    if a == b:
+                        # equal operands through ONE object (`&x op &x`, `x op &x`): aliasing
+                        yield '%s6 %d %s %s' % (o, bits, hx(a), hx(b))
+                        yield '%s7 %d %s %s' % (o, bits, hx(a), hx(b))
     k = 0
     while k < n:
         bits = rng.choice(GRID_ALL)
@@ -126,6 +130,8 @@ def gen(rng, tier):
             yield '%s %d %s' % (rng.choice(UN), bits, hx(a))
         elif r < 0.65:
             a, b = pair(rng, bits) if rng.random() < 0.5 else (bit_value(rng, bits), bit_value(rng, bits))
+            if rng.random() < 0.15:
+                b = a                                   # equal operands (shapes 6 / 7 pass ONE object twice)
             yield '%s %d %s %s' % (rng.choice(BIN2), bits, hx(a), hx(b))
         elif r < 0.9:
             a = bit_value(rng, bits)
